@@ -331,12 +331,7 @@ func (env *Env) eval(x Expr) (*Val, error) {
 		for i := mark; i < len(e.out); i++ {
 			ln := e.out[i]
 			if strings.HasPrefix(ln, "(assert ") {
-				for _, qv := range x.Vars {
-					if strings.Contains(ln, n.vars[qv.Name].L[0].T) {
-						ln = "(assert (forall (" + strings.Join(binders, " ") + ") " + ln[len("(assert "):len(ln)-1] + "))"
-						break
-					}
-				}
+				// (facts that mention a bound variable were universally closed by Enc.assert)
 				// the same fact is produced once per occurrence of a sub-expression, and again by every other
 				// quantifier over the same sub-expression: keep one copy (bound variable names normalised)
 				if strings.HasPrefix(ln, "(assert (forall ") {
